@@ -137,7 +137,7 @@ class FaultLog:  # 0418  # TODO: use a NamedTuple
     incremented for all exisiting log enties.
     """
 
-    _MAX_LOG_IDX = 0x3E
+    _MAX_LOG_IDX = 0x3F  # the log has 64 entries (00-3F)
 
     def __init__(self, tcs: _LogbookT) -> None:
         self._tcs: _LogbookT = tcs
